@@ -671,7 +671,13 @@ class PurityScenario(Scenario):
             elif kind == 'pupil':
                 out.append(E('Pupil', None, {'amplitude': '@A', 'opd': '@O', 'mask': '@MB', 'pixelscale': ph['dx'], 'focal_length': ph['f']}, id=o))
                 out.append(E('Plane.multiply', ['@' + o, '@W0']))
+                sc_ = rng.choice([1.5, 2.0])
+                out.append(E('Plane.rescale', ['@' + o, sc_]))
+                out.append(E('Plane.fit_tilt', ['@' + o]))
+                out.append(E('Plane.copy', ['@' + o]))
                 out.append(E('setattr', ['@' + o, 'focal_length', ph['f'] * rng.choice([2.0, 0.5])], inplace=['@' + o]))
+                for fn_, a_ in (('Plane.rescale', ['@' + o, sc_]), ('Plane.fit_tilt', ['@' + o]), ('Plane.copy', ['@' + o]), ('Plane.resample', ['@' + o, ph['dx'] / sc_])):
+                    out.append(E(fn_, a_, t={'fresh': True}))
                 w1 = nid('w')
                 out.append(E('Plane.multiply', ['@' + o, '@W0'], id=w1, t={'fresh': True}))
                 out.append(E('propagate_dft', ['@' + w1], {'pixelscale': ph['du'], 'shape': [6, 6], 'oversample': 1}, t={'fresh': True}))
